@@ -1020,13 +1020,23 @@ impl Rasn {
             Some(arc) if arc.name == Some("iso".into()) || arc.number == Some(1) => Some(1u8),
             _ => None,
         };
+        // X.660 A.3: the arcs below {itu-t recommendation} are the series letters a(1) to z(26)
+        let below_recommendation = root == Some(0)
+            && oid.0.get(1).is_some_and(|arc| match arc.number {
+                Some(n) => n == 0,
+                None => arc.name.as_deref() == Some("recommendation"),
+            });
         let resolved_well_known_arcs = oid
             .0
             .clone()
             .into_iter()
-            .map(|mut arc| {
+            .enumerate()
+            .map(|(i, mut arc)| {
                 if arc.number.is_none() {
                     arc.number = ObjectIdentifierArc::well_known(arc.name.as_ref(), root);
+                }
+                if arc.number.is_none() && i == 2 && below_recommendation {
+                    arc.number = ObjectIdentifierArc::recommendation_series(arc.name.as_ref());
                 }
                 arc
             })
